@@ -1,4 +1,4 @@
-"""VM-level witness search for C09 (`resize`, `deleteAt`, `deleteRange`, `select [start, length]`): operands of every kind, run on a sqfvm built from the current tree; a crash
+"""VM-level witness search for C09 (`resize`, `deleteAt`, `deleteRange`, `select`, `format`): operands of every kind, run on a sqfvm built from the current tree; a crash
 (non-zero exit without a result line), a hang or a wrong result is the witness."""
 import subprocess, tempfile, os
 CASES = [
@@ -34,6 +34,13 @@ CASES = [
     ('select false', '[1,2] select false', '1'),
     ('select true on a short array', '{ [1] select true } except__ { }; 7', '7'),
     ('select false on an empty array', '{ [] select false } except__ { }; 7', '7'),
+    ('format substitutes', 'format ["a%1b%2c", 7, "x"]', 'a7bxc'),
+    ('format with a placeholder behind the arguments', 'format ["a%3b", 7]', 'ab'),
+    ('format with more digits than an int holds', 'format ["a%99999999999b", 7]', 'ab'),
+    ('format with 2^31 as placeholder', 'format ["a%2147483648b", 7]', 'ab'),
+    ('format ending in a percent sign', 'format ["a%", 7]', 'a'),
+    ('format with a non-digit placeholder', 'format ["a%xb", 7]', 'ab'),
+    ('format of an empty array', '{ format [] } except__ { }; 7', '7'),
 ]
 def search(sqfvm):
     for (name, code, want) in CASES:
